@@ -156,12 +156,14 @@ type Entry struct {
 	Answered  bool        // the client saw the store's answer
 	Injected  string      // fault injected here, if any
 	CallID    int         // API call during which it happened (0 = background)
+	ExecSeq   int64       // global order in which the store finished executing delivered requests (0 = not delivered)
 }
 
 // Trace is the shared RPC log of a cluster.
 type Trace struct {
 	mu      sync.Mutex
 	Entries []*Entry
+	exec    atomic.Int64
 }
 
 func (t *Trace) add(e *Entry) {
@@ -204,6 +206,7 @@ type Net struct {
 	id       int
 	mu       sync.Mutex
 	plan     []*Fault
+	planTxn  uint64 // typed faults only count / match requests of this transaction (0 = any)
 	counts   map[tikvrpc.CmdType]int
 	total    int
 	callID   int
@@ -221,16 +224,70 @@ func traced(t tikvrpc.CmdType) bool {
 }
 
 // Arm installs a fault plan for the next API call of this client and resets the request counters.
-func (n *Net) Arm(callID int, plan []*Fault) {
+func (n *Net) Arm(callID int, txnStart uint64, plan []*Fault) {
 	n.mu.Lock()
-	n.plan, n.counts, n.total, n.callID = plan, map[tikvrpc.CmdType]int{}, 0, callID
+	n.plan, n.planTxn, n.counts, n.total, n.callID = plan, txnStart, map[tikvrpc.CmdType]int{}, 0, callID
 	n.mu.Unlock()
+}
+
+// NetState is a saved arming state (see Save / Restore).
+type NetState struct {
+	plan    []*Fault
+	planTxn uint64
+	counts  map[tikvrpc.CmdType]int
+	total   int
+	callID  int
+}
+
+// Save returns the current arming state so that a nested call on the same client can restore it.
+func (n *Net) Save() NetState {
+	n.mu.Lock()
+	defer n.mu.Unlock()
+	return NetState{n.plan, n.planTxn, n.counts, n.total, n.callID}
+}
+
+// Restore reinstalls a saved arming state.
+func (n *Net) Restore(st NetState) {
+	n.mu.Lock()
+	n.plan, n.planTxn, n.counts, n.total, n.callID = st.plan, st.planTxn, st.counts, st.total, st.callID
+	n.mu.Unlock()
+}
+
+// reqTxn extracts the transaction start ts a request belongs to (0 = unknown / none).
+func reqTxn(req *tikvrpc.Request) uint64 {
+	switch r := req.Req.(type) {
+	case *kvrpcpb.PrewriteRequest:
+		return r.StartVersion
+	case *kvrpcpb.CommitRequest:
+		return r.StartVersion
+	case *kvrpcpb.PessimisticLockRequest:
+		return r.StartVersion
+	case *kvrpcpb.PessimisticRollbackRequest:
+		return r.StartVersion
+	case *kvrpcpb.BatchRollbackRequest:
+		return r.StartVersion
+	case *kvrpcpb.TxnHeartBeatRequest:
+		return r.StartVersion
+	case *kvrpcpb.GetRequest:
+		return r.Version
+	case *kvrpcpb.BatchGetRequest:
+		return r.Version
+	case *kvrpcpb.ScanRequest:
+		return r.Version
+	case *kvrpcpb.FlushRequest:
+		return r.StartTs
+	case *kvrpcpb.CheckTxnStatusRequest:
+		return r.CallerStartTs
+	case *kvrpcpb.ResolveLockRequest:
+		return 0
+	}
+	return 0
 }
 
 // Disarm removes the plan (background RPCs are then traced with call id 0).
 func (n *Net) Disarm() {
 	n.mu.Lock()
-	n.plan, n.callID = nil, 0
+	n.plan, n.planTxn, n.callID = nil, 0, 0
 	n.mu.Unlock()
 }
 
@@ -292,12 +349,18 @@ func (n *Net) SendRequest(ctx context.Context, addr string, req *tikvrpc.Request
 		atomic.AddInt32(&n.inflight, -1)
 	}()
 	n.mu.Lock()
-	idx := n.counts[req.Type]
 	all := n.total
-	if n.counts != nil {
-		n.counts[req.Type]++
-	}
 	n.total++
+	// typed faults address the i-th request of a type issued on behalf of the armed transaction: background
+	// requests of other transactions of the same client neither count nor match
+	own := n.planTxn == 0 || reqTxn(req) == 0 || reqTxn(req) == n.planTxn
+	idx := -1
+	if own {
+		idx = n.counts[req.Type]
+		if n.counts != nil {
+			n.counts[req.Type]++
+		}
+	}
 	var fault *Fault
 	for _, f := range n.plan {
 		if !f.fired && ((f.Type == req.Type && f.Index == idx) || (f.Type == 0 && f.Index == all)) {
@@ -354,6 +417,9 @@ func (n *Net) SendRequest(ctx context.Context, addr string, req *tikvrpc.Request
 	n.cl.Trace.add(e)
 	resp, err := n.inner.SendRequest(ctx, addr, req, timeout)
 	e.Delivered = err == nil
+	if e.Delivered {
+		e.ExecSeq = n.cl.Trace.exec.Add(1)
+	}
 	if resp != nil {
 		e.Resp = resp.Resp
 	}
